@@ -262,6 +262,14 @@ def c08_jobs(tier):
         des("resource-and-pool", "progress", b, dl, procs=3, prios="0,1,2", budget=4, res=1, pool=2,
             ops="racq0,rrel0,rpre0,pacq1,pacq2,ppre2,prel1,prel2,hold0,hold1,int0,stop0,exit",
             script0="pacq2,racq0,hold2", script1="hold1,racq0,hold1", script2="hold1,ppre2,hold1"),
+        # those who wait behind a relay of conditions (the second condition observes the first, which observes the
+        # resource) or at a condition that observes a buffer's two guards, for a state only the object's own changes bring
+        des("relay-of-conditions", "progress", b, dl, procs=3, prios="0,1,2", budget=4, res=1, cond=1, subscribe="csub,chain",
+            ops="racq0,rrel0,cwait3,cwaitb3,hold0,hold1,exit,stop0,int1", script0="racq0,hold1,rrel0",
+            script1="cwaitb3,hold1", script2="hold2,cwait3,hold1"),
+        des("condition-on-buffer", "progress", b, dl, procs=3, prios="0,1,2", budget=4, buf=3, cond=1, subscribe="buf",
+            ops="bput1,bput2,bget1,bget2,cwait5,cwait6,hold0,hold1,exit,int1", script0="bput3,hold1,bget2,hold1",
+            script1="cwait5,hold1", script2="hold2,cwait6,hold1"),
         # a waiter for whom somebody else arms a timer while it waits (a deadline given from outside), then the object
         # becomes available before that timer fires - or the timer fires first
         des("deadline-from-outside", "progress,notif", b, dl, procs=3, prios="0,0,1", budget=4, res=1, buf=2,
@@ -722,6 +730,13 @@ def c13_jobs(tier):
             script0="hold1,setx1,csig,setx2", script1="cwait0,hold1", script2="cwait1,hold1", script3="cwait2,hold1"),
         des("forwarded-register", "condition", b, dl, procs=4, prios="0,1,2,1", budget=4, cond=1, res=1, ops=ops,
             subscribe="res", script0="racq0,hold1,rrel0", script1="cwait3,hold1", script2="cwait3,hold1", script3="cwait0,hold1"),
+        # forwarded signals through a relay of conditions and from a buffer's two guards
+        des("relay-of-conditions", "progress,condition", b, dl, procs=3, prios="0,1,2", budget=4, res=1, cond=1, subscribe="csub,chain",
+            ops="racq0,rrel0,cwait3,cwaitb3,hold0,hold1,exit,stop0,int1", script0="racq0,hold1,rrel0",
+            script1="cwaitb3,hold1", script2="hold2,cwait3,hold1"),
+        des("condition-on-buffer", "progress,condition", b, dl, procs=3, prios="0,1,2", budget=4, buf=3, cond=1, subscribe="buf",
+            ops="bput1,bput2,bget1,bget2,cwait5,cwait6,hold0,hold1,exit,int1", script0="bput3,hold1,bget2,hold1",
+            script1="cwait5,hold1", script2="hold2,cwait6,hold1"),
         # cancel / remove addressed to the wrong condition (one at which the process does not wait) change nothing
         des("wrong-condition", "condition,notif", b, dl, procs=3, prios="0,1,2", budget=4, cond=1, res=1,
             ops="cwait0,cwait1,csig,setx1,setx2,cremoveb1,ccancelb1,cremove1,ccancel1,stop1,start1,hold0,hold1,exit",
